@@ -94,7 +94,8 @@ def merge(scns, tracefile):
     for s in scns:
         r = by[s["scn"]]
         recs.append({"scn": r["scn"], "api": r["api"], "level": r["level"], "wrap": r["wrap"], "hist_bits": r["hist_bits"], "lbuf": r["lbuf"],
-                     "dict": r["dict"] if r["dictmode"] else [], "inp": r["inp"], "calls": r["calls"], "end": r["end"]})
+                     "dict": r["dict"] if r["dictmode"] else [], "inp": r["inp"], "calls": r["calls"], "end": r["end"],
+                     "expect_ret": r["meta"].get("expect_ret", 0), "complete_supply": r["meta"].get("complete_supply", True)})
     return recs, summary, by
 
 def judge(module, recs, wd, tag, shards=8, timeout=3000, weight=None):
